@@ -47,21 +47,21 @@ Qed.
 Lemma pref_diff_atom a b p1 p2 : Forall (pref p1) (diff_atom udiff skip a b p1 p2).
 Proof.
   unfold diff_atom. destruct (skip p1); [constructor|].
-  destruct (negb _); [apply pref_report|].
-  destruct a, b; try (destruct (py_eq _ _); [constructor|apply pref_report]).
-  - destruct (diff_str _ _ _ _) as [[|] d]; [apply pref_report|constructor].
-  - destruct (diff_str _ _ _ _) as [[|] d]; [apply pref_report|constructor].
+  destruct (negb _); [apply pref_report; tauto|].
+  destruct a, b; try (destruct (py_eq _ _); [constructor|apply pref_report; tauto]).
+  - destruct (diff_str _ _ _ _) as [[|] d]; [apply pref_report; tauto|constructor].
+  - destruct (diff_str _ _ _ _) as [[|] d]; [apply pref_report; tauto|constructor].
 Qed.
 
 Lemma pref_removed_from xs i p1 p2 : Forall (pref p1) (removed_from skip xs i p1 p2).
 Proof.
   revert i; induction xs as [|x xs IH]; intros i; cbn; [constructor|].
-  apply Forall_app; split; [|apply IH]. eapply Forall_pref_snoc. apply pref_report.
+  apply Forall_app; split; [|apply IH]. apply pref_report_snoc.
 Qed.
 Lemma pref_added_from ys j p1 p2 : Forall (pref p1) (added_from skip ys j p1 p2).
 Proof.
   revert j; induction ys as [|y ys IH]; intros j; cbn; [constructor|].
-  apply Forall_app; split; [|apply IH]. eapply Forall_pref_snoc. apply pref_report.
+  apply Forall_app; split; [|apply IH]. apply pref_report_snoc.
 Qed.
 
 Lemma pref_pairs_leaf xs ys i j p1 p2 : Forall (pref p1) (pairs_leaf udiff skip xs ys i j p1 p2).
@@ -70,8 +70,8 @@ Proof.
   - cbn. destruct ys; apply pref_added_from.
   - destruct ys as [|y ys]; [apply pref_removed_from|].
     cbn [pairs_leaf]. apply Forall_app; split; [|apply IH].
-    eapply Forall_pref_snoc. destruct (_ && _); [apply pref_report|].
-    unfold diff_leaf. destruct x, y; try constructor. apply pref_diff_atom.
+    destruct (_ && _); [apply pref_report_snoc|].
+    unfold diff_leaf. destruct x, y; try constructor. eapply Forall_pref_snoc. apply pref_diff_atom.
 Qed.
 
 Lemma pref_by_opcodes os xs ys p1 p2 : Forall (pref p1) (by_opcodes udiff skip os xs ys p1 p2).
@@ -89,10 +89,11 @@ Qed.
 
 Lemma pref_diff_set xs ys p1 p2 : Forall (pref p1) (diff_set hatom skip xs ys p1 p2).
 Proof.
-  assert (R : forall k a, Forall (pref p1) (report_set skip k a p1 p2)).
-  { intros k a. unfold report_set. destruct (skip p1); constructor; [|constructor]. exists []. cbn. rewrite app_nil_r. reflexivity. }
+  assert (R : forall k a, (k = KSetAdd \/ k = KSetRem) -> Forall (pref p1) (report_set skip k a p1 p2)).
+  { intros k a Hk. unfold report_set. destruct (skip p1); constructor; [|constructor]. exists []. cbn. rewrite app_nil_r.
+    split; [reflexivity|]. unfold strictk. cbn. destruct Hk; subst k; discriminate. }
   unfold diff_set. apply Forall_app; split; apply Forall_forall; intros e He; apply in_flat_map in He as (y & _ & He);
-    destruct (existsb _ _); try destruct He; eapply Forall_forall in He; try apply R; exact He.
+    destruct (existsb _ _); try destruct He; eapply Forall_forall in He; try (apply R; tauto); exact He.
 Qed.
 
 Definition PP (t1 : value) : Prop :=
@@ -133,9 +134,9 @@ Proof.
   induction t1 as [a|xs IH|xs IH|kvs IH|xs|xs] using value_ind'; intros t2 p1 p2;
     (destruct (skip p1) eqn:Hs; [rewrite diff_skip by exact Hs; split; constructor|]);
     (match goal with |- context [diff ?t1 t2 _ _] => destruct (ty_eqb (type_of t1) (type_of t2)) eqn:T end;
-     [|rewrite diff_type by assumption; cbn [fst snd]; split; [apply pref_report|constructor]]);
+     [|rewrite diff_type by assumption; cbn [fst snd]; split; [apply pref_report; tauto|constructor]]);
     apply ty_eqb_true in T; destruct t2; try discriminate T; try (destruct a; discriminate T).
-  - rewrite diff_atom_eq by exact Hs. destruct (negb _); cbn [fst snd]; split; try constructor; [apply pref_report|apply pref_diff_atom].
+  - rewrite diff_atom_eq by exact Hs. destruct (negb _); cbn [fst snd]; split; try constructor; [apply pref_report; tauto|apply pref_diff_atom].
   - rewrite diff_list by exact Hs. unfold seq_body. destruct (_ && _).
     + pose proof (pref_default_leaf_list xs xs0 p1 p2) as P.
       destruct (default_leaf_list _ _ _ _ _ _ _) as [es [|]]; cbn [fst snd] in *; split; try assumption; repeat constructor. apply ppref_self.
@@ -145,13 +146,13 @@ Proof.
       destruct (default_leaf_list _ _ _ _ _ _ _) as [es [|]]; cbn [fst snd] in *; split; try assumption; repeat constructor. apply ppref_self.
     + apply PP_go_list. exact IH.
   - rewrite diff_dict by exact Hs. unfold dict_body. destruct (dict_shortcut _ _ _ _ _).
-    + cbn [fst snd]. split; [apply pref_report|constructor].
+    + cbn [fst snd]. split; [apply pref_report; tauto|constructor].
     + cbn [fst snd]. destruct (PP_go_common kvs0 (keys_of c kvs0) p1 p2 kvs IH) as [A B]. split; [|exact B].
       apply Forall_app; split; [|apply Forall_app; split; [|exact A]].
       * apply Forall_forall. intros e He. apply in_flat_map in He as (k & _ & He).
-        destruct (mem_atom _ _); [destruct He|]. eapply pref_snoc. eapply Forall_forall in He; [exact He|apply pref_report].
+        destruct (mem_atom _ _); [destruct He|]. eapply Forall_forall in He; [exact He|apply pref_report_snoc].
       * apply Forall_forall. intros e He. apply in_flat_map in He as (k & _ & He).
-        destruct (mem_atom _ _); [destruct He|]. eapply pref_snoc. eapply Forall_forall in He; [exact He|apply pref_report].
+        destruct (mem_atom _ _); [destruct He|]. eapply Forall_forall in He; [exact He|apply pref_report_snoc].
   - rewrite diff_vset by exact Hs. cbn [fst snd]. split; [apply pref_diff_set|constructor].
   - rewrite diff_vfrozen by exact Hs. cbn [fst snd]. split; [apply pref_diff_set|constructor].
 Qed.
@@ -255,4 +256,23 @@ Proof.
       unfold is_kind in Kr. destruct (ekind r) eqn:K2; try discriminate. apply (H e r He Hr K K2). symmetry. exact E.
     + rewrite lwp_none; [reflexivity|]. intros a Ha E. apply filter_In in Ha as [Ha Ka].
       unfold is_kind in Ka. destruct (ekind a) eqn:K2; try discriminate. apply (H a e Ha He K2 K). exact E.
+Qed.
+
+Lemma mutual_In es e : In e (mutual es) ->
+  In e es \/ exists e0, In e0 es /\ ekind e = KValue /\ ep1 e = ep1 e0.
+Proof.
+  rewrite mutual_mfun. intros H. apply in_flat_map in H as (e0 & H0 & H).
+  unfold mfun in H. destruct (ekind e0) eqn:K; try (destruct H as [<-|[]]; left; exact H0).
+  - destruct (last_with_path _ _); [destruct H|]. destruct H as [<-|[]]. left; exact H0.
+  - destruct (last_with_path (ep1 e0) (filter (is_kind KIterAdd) es)); [|destruct H as [<-|[]]; left; exact H0].
+    destruct (last_with_path (ep1 e0) (filter (is_kind KIterRem) es)); [|destruct H as [<-|[]]; left; exact H0].
+    destruct H as [<-|[]]. right. exists e0. cbn. auto.
+Qed.
+
+Lemma mutual_pref p es : Forall (pref p) es -> Forall (pref p) (mutual es).
+Proof.
+  intros H. apply Forall_forall. intros e He. apply mutual_In in He as [He|(e0 & H0 & K & P)].
+  - eapply Forall_forall in H; eassumption.
+  - eapply Forall_forall in H; [|exact H0]. destruct H as (r & Hr & _). exists r. rewrite P. split; [exact Hr|].
+    unfold strictk. rewrite K. discriminate.
 Qed.
